@@ -6,6 +6,7 @@ MODULE = "FendModel.Props.C07"
 REL = "FendModel/Props/C07.lean"
 GAP_MS = 1500          # "the time between successive checks stays bounded": what we call unbounded in this (unoptimised-ish) build
 AFTER_MS = 1500        # "after a small bounded amount of further work"
+EXTRA_POLLS = 4        # ... counted in calls of the predicate after the one that first said stop
 
 def hx(s): return s.encode().hex()
 
@@ -50,6 +51,25 @@ def heavy_inputs(quick):
     P = [("parse-plus-chain-1500", "+".join(["1"] * 1500)), ("parse-minus-mul-chain", "-".join(["2*3"] * 700)), ("parse-juxtapose-1500", " ".join(["2 m"] * 750)), ("parse-string-concat-1500", "+".join(["'a'"] * 1500)), ("parse-nested-parens", "(1+" * 150 + "1" + ")" * 150)]
     return L, P
 
+FUNC_EQ = ["(x: x + 1) == (x: x + 1)", "(\\x. 2x) != (\\x. 2x)", "lhs_fn = (x: 3 x^2); rhs_fn = (x: 3 x^2); verdict = (lhs_fn == rhs_fn); verdict", "(x: x + 1) == (x: x + 2)", "sin == sin", "sin != cos",
+           "(x: y: x y) == (x: y: x y)", "f = x: x^2 + 1; g = x: x^2 + 1; f == g", "1 == 1", "2 m == 200 cm", "3 kg != 3000 g", "true == true", "'a' == 'a'", "@2020-01-01 == @2020-01-01", "() == ()", "(1, 2) == (1, 2)",
+           "{a: 1} == {a: 1}", "[1, 2] == [1, 2]", "1 < 2", "2 m > 100 cm", "1/3 <= 0.34", "pi >= 3", "not (1 == 2)", "if 1 == 1 then 2 else 3", "(x: if x == 1 then 'one' else 'other') 1", "5 == 5 == true",
+           "(1 + i) == (1 + i)", "1 km == 1000 m == true", "sqrt 2 == sqrt 2", "(x: sqrt x) == (x: sqrt x)", "(x: x 2 m) != (x: x 2 m)", "d6 == d6", "va = (x: 2 x) == (x: 2 x); vb = not va; vb",
+           "sin(90 degrees)", "cos(180 deg)", "tan(45 °)", "sin(30°) + cos(60°)", "sin(1 turn / 4)", "sin(100 gradians)", "cos(pi/3)", "sin(pi/6 rad)", "tan(pi/4)", "sin(2)", "cos^2 pi", "sin 1°", "asin(sin(30°))",
+           "1 light_year to m", "5 us_gal to L", "1 metric_ton to kg", "3 troy_oz to g", "i^5", "i^(2^20+3)", "(2i)^7", "(1+i)^i", "1 J/K to eV/K", "5 kg m^2 s^-2", "1 kWh to J", "100 km/h to m/s", "1 N m to J"]
+RANDOM_OR_CLOCK = re.compile(r"roll|sample|today|now|tomorrow|yesterday|d\d|\dd\b", re.I)
+
+def breadth_inputs(quick, r):
+    """light inputs across every feature (the pinned suite's own inputs, the manual's examples, edge forms, equality of every value kind): the predicate
+    is made to fire at EVERY poll of each, so a swallowed or mis-mapped interrupt anywhere in the evaluator shows up as a wrong answer"""
+    from props import C06
+    suite, manual = C06.suite_inputs()
+    pool = [t for t in suite + manual + list(C06.FORMS) if not RANDOM_OR_CLOCK.search(t) and "\n" not in t and len(t) <= 100]
+    pool = sorted(set(pool))
+    pick = r.sample(pool, min(len(pool), 260 if quick else 2500))
+    texts = list(dict.fromkeys([x for x in FUNC_EQ if not RANDOM_OR_CLOCK.search(x)] + pick))
+    return [(f"breadth[{t}]", t) for t in texts]
+
 FIELD = re.compile(r"res=(\S*) polls=(\d+) fired=(\d) gap_us=(\d+) after_fire_us=(\d+) total_us=(\d+) vars=(.*)$")
 
 def parse(o):
@@ -72,20 +92,27 @@ def run(ctx):
     t0 = time.time()
     r = ctx.rng
     heavy, parse_only = heavy_inputs(quick)
-    allin = heavy + parse_only
+    breadth = breadth_inputs(quick, r)
+    allin = heavy + parse_only + breadth
+    is_breadth = {n for n, _ in breadth}
     # 1. uninterrupted reference runs
+    hp = heavy + parse_only
     ref_lines = [f"eval never {hx(t)}" for _, t in allin] + [f"preview never {hx(t)}" for _, t in allin]
-    ref_out = ctx.run_lines_robust(h, ["intr"], ref_lines, env={"HARNESS_LINE_TIMEOUT_S": "120"})
+    out_hp = ctx.run_lines_robust(h, ["intr"], [f"eval never {hx(t)}" for _, t in hp] + [f"preview never {hx(t)}" for _, t in hp], env={"HARNESS_LINE_TIMEOUT_S": "120"})
+    out_b = ctx.run_lines_robust(h, ["intr"], [f"eval never {hx(t)}" for _, t in breadth] + [f"preview never {hx(t)}" for _, t in breadth], env={"HARNESS_LINE_TIMEOUT_S": "3"})
+    ref_out = out_hp[:len(hp)] + out_b[:len(breadth)] + out_hp[len(hp):] + out_b[len(breadth):]
     ref = {}
     dist = {"inputs": len(allin), "firing_points": 0, "interrupted": 0, "finished_same": 0, "max_gap_ms": 0.0, "max_after_fire_ms": 0.0, "polls_uninterrupted": {}, "preview_runs": 0}
-    for (name, t), o in zip(allin + allin, ref_out):
-        mode = "eval" if len(ref) < len(allin) else "preview"
+    for idx, ((name, t), o) in enumerate(zip(allin + allin, ref_out)):
+        mode = "eval" if idx < len(allin) else "preview"
         p = parse(o)
         ref[(mode, name)] = p
         if p is None:
-            ctx.spec_failures.append({"stream": "interrupt", "input": f"heavy: {name} ({mode}, never fired)", "impl": o[:200], "model": "a result", "spec": "the uninterrupted run finishes (within 120 s)"}); continue
+            if name not in is_breadth:
+                ctx.spec_failures.append({"stream": "interrupt", "input": f"heavy: {name} ({mode}, never fired)", "impl": o[:200], "model": "a result", "spec": "the uninterrupted run finishes (within 120 s)"})
+            continue
         if mode == "eval":
-            dist["polls_uninterrupted"][name] = p["polls"]
+            if name not in is_breadth: dist["polls_uninterrupted"][name] = p["polls"]
             dist["max_gap_ms"] = max(dist["max_gap_ms"], p["gap_ms"])
         if p["gap_ms"] > GAP_MS:
             ctx.spec_failures.append({"stream": "interrupt", "input": f"gap: {name} ({mode})", "impl": f"{p['gap_ms']:.0f} ms without a single check of the predicate ({p['polls']} checks in {p['total_ms']:.0f} ms)", "model": f"<= {GAP_MS} ms",
@@ -113,6 +140,22 @@ def run(ctx):
                                       "spec": "the time between successive checks of the predicate stays bounded / evaluation stops promptly once it returns true"})
         if p["fired"] and p["res"] not in ("err:interrupted",) and not name.startswith("preview:"):
             ctx.spec_failures.append({"stream": "interrupt", "input": f"deadline: {name}", "impl": p["res"], "model": "err:interrupted", "spec": "stops with the error 'interrupted'"})
+    # breadth inputs must be deterministic (no dice, no clock): a second reference run has to agree, otherwise the input is left out
+    live = [(n, t) for n, t in breadth if ref.get(("eval", n)) is not None and ref.get(("preview", n)) is not None]
+    for n, t in breadth:
+        if (n, t) not in live:
+            ref[("eval", n)] = ref[("preview", n)] = None
+    ref2 = ctx.run_lines_robust(h, ["intr"], [f"eval never {hx(t)}" for _, t in live] + [f"preview never {hx(t)}" for _, t in live], env={"HARNESS_LINE_TIMEOUT_S": "3"})
+    dropped = costly = 0
+    for idx, o in enumerate(ref2):
+        name = live[idx % len(live)][0]
+        mode = "eval" if idx < len(live) else "preview"
+        p1, p2 = ref.get((mode, name)), parse(o)
+        if p1 is not None and (p2 is None or p2["res"] != p1["res"] or p2["polls"] != p1["polls"] or p2["vars"] != p1["vars"]):
+            ref[(mode, name)] = None; dropped += 1
+        elif p1 is not None and (p1["total_ms"] > 25 or p1["polls"] > 3000):
+            ref[(mode, name)] = None; costly += 1    # heavy work is the other family's job; every-poll sweeps need cheap inputs
+    dist["breadth_inputs"] = len(breadth); dist["breadth_left_out_nondeterministic"] = dropped; dist["breadth_left_out_costly"] = costly
     # 2. every / sampled firing point
     lines, meta = [], []
     for name, t in allin:
@@ -120,6 +163,13 @@ def run(ctx):
             p = ref.get((mode, name))
             if p is None: continue
             n = p["polls"]
+            if name in is_breadth:
+                ks = set(range(0, min(n, 150 if quick else 400))) | {n}
+                if mode == "preview":
+                    ks = set(list(sorted(ks))[:: 4])
+                for k in sorted(ks):
+                    lines.append(f"{mode} {k} {hx(t)}"); meta.append((name, mode, k, t))
+                continue
             ks = set(range(0, min(n, 40 if quick else 200)))
             ks |= {n - 1 - i for i in range(0, min(n, 25 if quick else 100))}
             ks |= {r.randrange(n) for _ in range(30 if quick else 300)} if n > 0 else set()
@@ -129,7 +179,20 @@ def run(ctx):
             for k in sorted(x for x in ks if x >= 0):
                 lines.append(f"{mode} {k} {hx(t)}"); meta.append((name, mode, k, t))
     outs = ctx.run_lines_robust(h, ["intr"], lines, env={"HARNESS_LINE_TIMEOUT_S": "120"})
-    model = ctx.run_lines(core.DRIVER, ["intr"], [f"{ref[(m[1], m[0])]['polls']} {m[2]}" for m in meta], timeout=900)[1]
+    # the driver materialises each synthetic trace (up to millions of events for the heaviest inputs): feed it in batches of bounded total size
+    mlines = [(ref[(m[1], m[0])]['polls'], m[2]) for m in meta]
+    model, batch, weight = [], [], 0
+    def flush():
+        nonlocal batch, weight
+        if batch:
+            rc, o, e = ctx.run_lines(core.DRIVER, ["intr"], batch, timeout=900)
+            o += ["<missing>"] * (len(batch) - len(o))
+            model.extend(o[:len(batch)])
+        batch, weight = [], 0
+    for n, k in mlines:
+        batch.append(f"{n} {k}"); weight += min(n, k + 2)
+        if weight > 6_000_000 or len(batch) >= 5000: flush()
+    flush()
     model += ["<missing>"] * (len(lines) - len(model))
     for (name, mode, k, t), o, mo in zip(meta, outs, model):
         dist["firing_points"] += 1
@@ -154,7 +217,17 @@ def run(ctx):
             got = ("interrupted" if p["res"] == "err:interrupted" else "finished") + f" polls={p['polls']}"
             if not mo.startswith(want) or got != want:
                 # a run may legitimately finish although the predicate fired late (the last polls can be skipped by short-cuts); what may not happen is polling on after the stop
-                if p["res"] == "err:interrupted" and p["polls"] != k + 1:
+                # The trace model stops AT the poll that fires (k+1 calls).  fend has a few places that catch every error of a sub-computation, the
+                # interrupt included, and fall back to another path (sin/cos/tan's angle conversion, the exact-trig table lookup, `a_b` unit lookup):
+                # there the predicate is called again before the run stops.  The property allows "a small bounded amount of further work", so up to
+                # EXTRA_POLLS further calls are accepted and counted; more than that is a run that kept going after being told to stop.
+                extra = p["polls"] - (k + 1)
+                if p["res"] == "err:interrupted":
+                    dist["max_polls_after_fire"] = max(dist.get("max_polls_after_fire", 0), extra)
+                    if extra > 0: dist["runs_with_polls_after_fire"] = dist.get("runs_with_polls_after_fire", 0) + 1
+                if p["res"] == "err:interrupted" and not (0 <= extra <= EXTRA_POLLS):
+                    ctx.spec_failures.append({"stream": "interrupt", "input": "fire: " + tag, "impl": got, "model": mo, "spec": f"stops after a small bounded amount of further work (at most {EXTRA_POLLS} further checks of the predicate)"})
+                elif not mo.startswith(("interrupted polls=", "finished polls=")):
                     ctx.model_disagreements.append({"stream": "interrupt", "input": "fire: " + tag, "impl": got, "model": mo})
         # prompt
         if p["fired"] and p["after_ms"] > AFTER_MS:
